@@ -329,6 +329,25 @@ func c05Cases(tier string) []c05Case {
 		}
 	}
 	out = append(out, c05AbortCases(tier)...)
+	// files that changed size between listing and reading: whatever is stored, the digest covers exactly that
+	for _, base := range baseTrees() {
+		for _, delta := range []int{-3, -1 << 30, 5} {
+			for _, dst := range []fsmodel.Tree{nil, base} {
+				c := SyncCase{Src: base, Dst: dst, Mem: true, MemResize: delta}
+				if dst != nil {
+					// make every file differ so that it is requested again
+					d := dst.Clone()
+					for i := range d {
+						if d[i].Kind == fsmodel.File && d[i].HL == 0 {
+							d[i].Mtime += 77
+						}
+					}
+					c.Dst = d
+				}
+				out = append(out, c05Case{Sync: &c})
+			}
+		}
+	}
 	for _, s := range fsmodel.AttrVariants("x") {
 		for _, d := range fsmodel.AttrVariants("x") {
 			if d.Kind == fsmodel.Socket || s.Kind == fsmodel.Socket {
